@@ -258,7 +258,20 @@ def oracle(case):
     op = case["op"]
     if op == "parse":
         raw = bibtexparser.parse_string(case["t"], parse_stack=[])
-        return _check(raw.blocks, bibtexparser.parse_string(case["t"]), True)
+        out = bibtexparser.parse_string(case["t"])
+        # which @string is "the first with that key" is read off the SOURCE (exact, case-sensitive keys), not off what
+        # Library.add made of the blocks: the live @string blocks are exactly the first definitions, in document order
+        import re as _re
+        from bibtexparser import model as M
+        keys = [m.group(1).strip() for m in _re.finditer(r"@string[ \t]*\{([^={}@]*)=", case["t"], _re.I)]
+        n_defs = sum(1 for b in raw.blocks if isinstance(b, M.String)
+                     or (isinstance(b, M.DuplicateBlockKeyBlock) and isinstance(b.ignore_error_block, M.String)))
+        if len(keys) == n_defs:
+            firsts = list(dict.fromkeys(keys))
+            live = [b.key for b in out.strings]
+            if live != firsts:
+                return "Library.strings holds the keys %r, the first definitions in the document are %r" % (live, firsts)
+        return _check(raw.blocks, out, True)
     mw = ResolveStringReferencesMiddleware(allow_inplace_modification=case["inplace"])
     if op == "resolve":
         raw = bibtexparser.parse_string(case["t"], parse_stack=[])
